@@ -5,6 +5,7 @@ The outputs are linear images of i.i.d. N(0,1) arrays (T4), hence Gaussian, so t
 (2) fresh, independent noise per split: seeds are words of SeedSequence(entropy, (spawn_key, depth)) and (spawn_key, depth)
 identifies the node; noise arrays are drawn at the full sample shape; (3) Davie/Foster Levy areas: conditional mean
 H(x)W - W(x)H and the prescribed conditional variance; (4) the induction over histories is meta-level: its step is (1)-(2)."""
+from fractions import Fraction
 import time
 
 import numpy as np
@@ -133,6 +134,45 @@ def job_key_injective(E, rep, tier):
     rep.take(cx.obligations)
 
 
+def job_levy_call_site(E, rep, tier):
+    """_increment_and_levy_area (the only producer of A): returns (W, H, A) with W, H its own increment and space-time area and
+    A = _davie_foster_approximation(W, H, self._end - self._start, top._levy_area_approximation, self._randn_levy) -- the arguments at the
+    call site are checked against the contract of the approximation (verified in job levy-area); and the noise seed of a node is the
+    a-seed its parent holds for its side."""
+    rep.under_contract(BI + '._Interval._increment_and_levy_area', BI + '._Interval._a_seed')
+    mod = E.module(BI)
+    calls = []
+    mod.globals['_davie_foster_approximation'] = I.ExternFunc('_davie_foster_approximation', lambda W, H, h, mode, noise: calls.append((W, H, h, mode, noise)) or 'A-value')
+    cx = Ctx(E, [])
+    node_cls = E.module(BI).globals['_Interval']
+    top = I.ObjVal(I.ClassVal('TopStub', [], {}, None, 'harness.TopStub'), {'_levy_area_approximation': 'foster'})
+    for is_left in (True, False):
+        parent = I.ObjVal(I.ClassVal('ParentStub', [], {}, None, 'harness.ParentStub'), {'_left_a_seed': 'seed-L', '_right_a_seed': 'seed-R'})
+        node = I.ObjVal(node_cls, {'_start': Fraction(1, 4), '_end': Fraction(3, 4), '_top': top, '_parent': parent, '_is_left': is_left})
+
+        def gen_stub():
+            return ('W-value', 'H-value')
+        node.fields['_increment_and_space_time_levy_area'] = I.ExternFunc('stla', gen_stub)
+        del calls[:]
+        try:
+            out = E.call(E.get_attr(node, '_increment_and_levy_area', cx, 0), [], {}, cx, 0)
+        except I.PyExc as e:
+            rep.add(f'C04/_increment_and_levy_area[is_left={is_left}]/no-raise', 'no-raise', 'refuted', 'pyvc-exec', model={'raised': f'{e.cls}: {e.msg}'})
+            continue
+        tag = f'C04/_increment_and_levy_area[is_left={is_left}]'
+        ok = isinstance(out, tuple) and out == ('W-value', 'H-value', 'A-value')
+        rep.add(f'{tag}/post.returns(W,H,A)', 'post', 'discharged' if ok else 'refuted', 'pyvc-exec', model=None if ok else {'returned': repr(out)[:120]})
+        okc = len(calls) == 1 and calls[0][0] == 'W-value' and calls[0][1] == 'H-value' and calls[0][2] == Fraction(1, 2) and calls[0][3] == 'foster'
+        rep.add(f'{tag}/call-pre.approximation-gets(W,H,end-start,mode)', 'call-pre', 'discharged' if okc else 'refuted', 'pyvc-exec',
+                model=None if okc else {'arguments': [repr(a_)[:40] for a_ in (calls[0][:4] if calls else [])]})
+        noise = calls[0][4] if calls else None
+        seed = E.call(E.get_attr(node, '_a_seed', cx, 0), [], {}, cx, 0)
+        oks = seed == ('seed-L' if is_left else 'seed-R')
+        rep.add(f'{tag}/post._a_seed-is-the-parents-seed-for-this-side', 'post', 'discharged' if oks else 'refuted', 'pyvc-exec', model=None if oks else {'seed': repr(seed)})
+        okn = isinstance(noise, I.BoundMethod) and noise.obj is node and getattr(noise.func, 'qualname', '').endswith('_Interval._randn_levy')
+        rep.add(f'{tag}/call-pre.noise-source-is-own-_randn_levy', 'call-pre', 'discharged' if okn else 'refuted', 'pyvc-exec', model=None if okn else {'noise': repr(noise)[:80]})
+
+
 def job_noise_shape(E, rep, tier):
     """_randn / _randn_levy draw at the full sample shape: size = top._size and (*top._size, top._size[-1])."""
     from contracts import tree as T
@@ -180,7 +220,7 @@ def job_noise_shape(E, rep, tier):
 def jobs(tier):
     P = 'C04'
     return [TJ.job_split_algebra(P, ('law',)), TJ.make(P, 'split_exact', False), Job('levy-area', job_levy),
-            Job('seed-lemmas', job_seed_lemmas), Job('key-injective', job_key_injective), Job('noise-shape', job_noise_shape), CJ.job_constructor(P), AJ.job_aggregation(P)]
+            Job('seed-lemmas', job_seed_lemmas), Job('key-injective', job_key_injective), Job('levy-call-site', job_levy_call_site), Job('noise-shape', job_noise_shape), CJ.job_constructor(P), AJ.job_aggregation(P)]
 
 
 def canaries(tier):
